@@ -164,7 +164,9 @@ def obligations(ctx, cfg):
                                 ConsumerRace(ctx, 'C06.e-race-stream-post', ['stream'], ['post'], n_out=0, n_back=0),
                                 ConsumerRace(ctx, 'C06.f-stalled-stream-then-pull-post', ['stream', 'pull'], ['post'], n_out=0, n_back=1, stall_after=1, backlog_exact=1, first=(0,))]
     if cfg['tier'] == 'thorough':
-        obs += [PullRace(ctx, 1, ('post', 'post')), PullRace(ctx, 2, ('post',), n_out=0),
+        obs += [PullRace(ctx, 1, ('post', 'post')),
+                ConsumerRace(ctx, 'C06.e-race-pull-then-pull-post', ['pull', 'pull'], ['post'], n_out=0, n_back=0, first=(0,)),
+                ConsumerRace(ctx, 'C06.e-race-stream-then-pull-post', ['stream', 'pull'], ['post'], n_out=0, n_back=0, first=(0,)),
                 ConsumerRace(ctx, 'C06.e-race-stream-nack', ['stream'], ['nack'], n_out=1, n_back=0),
                 ConsumerRace(ctx, 'C06.e-race-stream-expire', ['stream'], ['expire'], n_out=1, n_back=0),
                 ConsumerRace(ctx, 'C06.f-stalled-stream-pull-post', ['stream', 'pull'], ['post'], n_out=0, n_back=1, stall_after=1, backlog_exact=1),
